@@ -685,5 +685,10 @@ def run(F, R, config="all"):
     r7(F, R)
     from . import c03
     c03.snapshot(F, R, "C01-R9")
+    # the refreshed momentum has the distribution the kinetic energy assumes: N(0, I) for Euclidean and ExactNormal, the unit sphere only for Microcanonical
+    from . import c18
+    K.borrow_rule(R, lambda sub: c18.r1(F, sub), "C01-R10", "momentum refresh per kinetic-energy kind: the velocity written by array_gaussian in initialize_trajectory is "
+                  "renormalised exactly on the Microcanonical paths (C18-R1 analysis); normalising it for another kind changes the invariant distribution",
+                  only_rules={"C18-R1"})
     R.assume("rand's RngExt::random::<bool>() returns true with probability 1/2")
     R.assume("MIR at -Zmir-opt-level=0 is a faithful control-flow model of the source")
